@@ -502,7 +502,7 @@ static void run_op(void)
                 while (k-- > 0) do_service();
         } else if (strcmp(o, "D") == 0) {
                 int k = atoi(tok[1]), i;
-                for (i = 0; i < k; i++) if (do_service() == 0) break;
+                for (i = 0; i < k; i++) if (do_service() == 0 && inq_pos >= inq_len) break;
         } else if (strcmp(o, "f") == 0) {
                 size_t n; uint8_t *p = unhex(tok[1], &n);
                 if (inq_len + n > inq_cap) { inq_cap = (inq_len + n) * 2 + 64; inq = realloc(inq, inq_cap); }
